@@ -43,13 +43,13 @@ type Program struct {
 	SSA    map[string]*ssa.Package // by import path
 	Funcs  map[*ssa.Function]bool  // all functions (incl. instantiations, closures)
 
-	cg          *callgraph.Graph
-	inMod       map[*ssa.Function]bool
-	edges       map[*ssa.Function][]*ssa.Function // in-module call edges (resolved) + parent→closure
-	callers     map[*ssa.Function][]*callgraph.Edge
-	byName      map[string]*ssa.Function
-	siteCallees map[ssa.CallInstruction][]*ssa.Function
-	renamed     map[string]string
+	cg            *callgraph.Graph
+	inMod         map[*ssa.Function]bool
+	edges         map[*ssa.Function][]*ssa.Function // in-module call edges (resolved) + parent→closure
+	callers       map[*ssa.Function][]*callgraph.Edge
+	byName        map[string]*ssa.Function
+	siteCallees   map[ssa.CallInstruction][]*ssa.Function
+	renamed       map[string]string
 	fieldsRenamed map[string]string
 }
 
